@@ -26,6 +26,12 @@ keys   : C17:<file>.<class>:n=<capacity>:construct[:<Exception>]   the class can
               enq-rdy-low (key without suffix: rdy low although not full, nothing else wrong) | enq-rdy-high | deq-rdy-low | deq-rdy-high |
               enq-fire-* | deq-fire-* | wrong-msg | deq-from-empty | count | overflow | unclassified  -- one report per class x deviation
          C17:<file>.<class>:n=<capacity>:model / :exception          ports respect the spec but registers leave the Coq model / simulation raised
+views  : every read-only port / method is judged too.  RTL: the count output every cycle, and the data output (deq.ret, send.msg,
+         deq.msg of val/rdy queues) whenever deq_rdy / val is up, fired or not (Fifo.fifo_head; C17_spec_head_is_delivered /
+         _is_oldest; deviation kind wrong-head).  CL: the consumer calls peek.rdy() every cycle and peek() on pseudo-randomly chosen
+         cycles before its deq; judged by the CL model replay (ready iff the deque the consumer's block finds is non-empty, value =
+         its oldest element = what deq returns, nothing removed: C17_cl_peek, C17_cl_peek_then_deq; kinds peek-rdy / peek-wrong);
+         len(queue) is read as the count.  NormalQueueCL is run without peek (free block order) and with it (family cl+peek).
 chains : harness/c17_chains.py -- the same queues AS USED through the library's own CL<->RTL adapters (RecvRTL2SendCL,
          RecvCL2SendRTL, the give->recv And adapter, stream Send/RecvQueueAdapter, StallCL in between) assembled with plain
          `connect`, and CL producers that keep ONE Bits / bitstruct message object and update it in place (also for every CL
@@ -34,7 +40,7 @@ chains : harness/c17_chains.py -- the same queues AS USED through the library's 
          and per RTL queue inside the chain by passive port/register monitors with the full specification (keys
          C17:chain.<chain>[..]/<file>.<Class>:n=<k>:history...).  The adapters' own ready timing is outside C17's text and is
          not demanded; the message streams through them are.
-partial: the Bits widths of head/tail/count are not modelled (nat registers + proved bounds); CL `peek` is not driven;
+partial: the Bits widths of head/tail/count are not modelled (nat registers + proved bounds);
          the T-gen stretch of DESIGN (translating *CtrlRTL automatically) is not done: the concrete models are hand-written
          and tied by the register-level differential replay above.
 """
@@ -47,6 +53,14 @@ CASE_T = 'Z * Z * Z * list ccode'
 
 # ---------------------------------------------------------------------------------------------- a reference in Python
 # used ONLY to steer shrinking (never for the verdict: every reported history is re-confirmed by coqc)
+def py_peek_ok(r, q, ef):
+  """peek observed at the start of the consumer's block: ready iff the deque it finds is non-empty, value = its oldest element"""
+  pk = r.get('pk')
+  if pk is None: return True
+  pr, pc, pv, enq_first = pk
+  st = q + [r['msg']] if (enq_first and ef) else q
+  return bool(pr) == bool(st) and (not pc or (bool(st) and pv == st[0]))
+
 def py_spec_first_bad(kind, n, hist):
   q = []
   for i, r in enumerate(hist):
@@ -61,7 +75,8 @@ def py_spec_first_bad(kind, n, hist):
     q1 = q + [r['msg']] if ef else q
     ok = (r['er'] is None or bool(r['er']) == bool(er)) and (r['dr'] is None or bool(r['dr']) == bool(dr)) \
          and bool(r['ef']) == ef and bool(r['df']) == df and (not df or (q1 and r['out'] == q1[0])) \
-         and (r['cnt'] is None or r['cnt'] == len(q))
+         and (r['cnt'] is None or r['cnt'] == len(q)) \
+         and (not r.get('head') or not dr or not q1 or r['out'] == q1[0]) and py_peek_ok(r, q, ef)
     if not ok: return i
     q = q1[1:] if df else q1
   return None
@@ -87,6 +102,12 @@ def py_deviations(kind, n, hist):
     elif df != bool(r['wd'] and dr): dev.append((i, 'deq-fire-low' if dr else 'deq-fire-high'))
     if r['cnt'] is not None and r['cnt'] != len(q): dev.append((i, 'count'))
     q1 = q + [r['msg']] if ef else q
+    if r.get('head') and r['dr'] and q1 and r['out'] != q1[0]: dev.append((i, 'wrong-head'))
+    pk = r.get('pk')
+    if pk is not None:
+      st = q1 if pk[3] else q
+      if bool(pk[0]) != bool(st): dev.append((i, 'peek-rdy'))
+      elif pk[1] and pv_differs(pk, st): dev.append((i, 'peek-wrong'))
     if df:
       if not q1: dev.append((i, 'deq-from-empty'))
       elif r['out'] != q1[0]: dev.append((i, 'wrong-msg'))
@@ -94,6 +115,13 @@ def py_deviations(kind, n, hist):
     if len(q1) > n: dev.append((i, 'overflow'))
     q = q1
   return dev
+
+def pv_differs(pk, st): return (not st) or pk[2] != st[0]
+
+def first_some(diag):
+  """earliest cycle named in a Coq `(option nat * option nat)` diagnosis, None if both are None"""
+  xs = [int(x) for x in re.findall(r'Some (\d+)', diag)]
+  return min(xs) if xs else None
 
 def first_of_kind(kind, n, hist, what):
   for i, k in py_deviations(kind, n, hist):
@@ -123,12 +151,14 @@ class Drv:
   replayable = True          # can a history be re-simulated on a fresh instance (for shrinking)?
   def first_bad(s, hist): return py_spec_first_bad(s.kind, s.n, hist)
   def deviations(s, hist): return py_deviations(s.kind, s.n, hist)
-  def rec(s, rst, we, msg, wd, ein, din, er, dr, ef, df, out, cnt, ints):
-    return {'rst': int(rst), 'we': int(we), 'msg': int(msg), 'wd': int(wd), 'ein': int(ein), 'din': int(din),
+  head = 0                   # 1: the data output (deq.ret / send.msg) is a valid peek-like view whenever deq_rdy / val is up
+  def rec(s, rst, we, msg, wd, ein, din, er, dr, ef, df, out, cnt, ints, pk=None):
+    return {'head': s.head, 'pk': pk, 'rst': int(rst), 'we': int(we), 'msg': int(msg), 'wd': int(wd), 'ein': int(ein), 'din': int(din),
             'er': None if er is None else int(er), 'dr': None if dr is None else int(dr), 'ef': int(ef), 'df': int(df),
             'out': int(out), 'cnt': None if cnt is None else int(cnt), 'ints': ints}
 
 class GiveDrv(Drv):
+  head = 1
   """queues.py: enq = en/rdy recv interface, deq = en/rdy give interface (deq.en in, deq.rdy/ret out), count port.
   en is raised only when the rdy seen in the same cycle is high (rdy of a pipe queue depends on deq.en, deq.rdy of a
   bypass queue on enq.en: the en signals are raised until nothing changes)."""
@@ -151,6 +181,7 @@ class GiveDrv(Drv):
     return r
 
 class ValRdyDrv(Drv):
+  head = 1
   """stream/queues.py (recv/send, count) and valrdy_queues.py (enq/deq): val/rdy on both sides, no constraint on inputs"""
   inp, outp = 'recv', 'send'
   def count(s): return int(s.top.count)
@@ -187,14 +218,19 @@ class CLDrv(Drv):
     assert not rst
     cnt = len(h.dut.queue)
     h.want_enq, h.want_deq, h.msg, h.log = we, wd, msg, []
+    h.want_peek = int((msg * 7 + we + 2 * wd) % 4 != 0)    # read-only calls interleaved pseudo-randomly (a function of the offer: replayable)
     h.sim_tick()
     log = dict((x[0], x) for x in h.log)
     assert len(h.log) == 2
     order = [x[0] for x in h.log]
     if s.mid is None: s.mid = 8 if order[0] == 'enq' else 9
     assert (8 if order[0] == 'enq' else 9) == s.mid, 'the schedule changed between cycles'
-    _, er, ef = log['enq']; _, dr, df, out = log['deq']
-    return s.rec(0, we, msg, wd, we, wd, er, dr, ef, df, out if df else 0, cnt, (0, 0, 0, []))
+    _, er, ef = log['enq']; _, dr, df, out = log['deq'][:4]
+    pk = None
+    if len(log['deq']) > 4:      # (peek.rdy(), peek() called?, value) observed at the start of the consumer's block
+      pr, pc, pv = log['deq'][4:7]
+      pk = (int(pr), int(pc), int(pv), int(s.mid == 8))
+    return s.rec(0, we, msg, wd, we, wd, er, dr, ef, df, out if df else 0, cnt, (0, 0, 0, []), pk)
 
 def make_drivers(tier):
   from pymtl3 import Component, Bits8, update_once
@@ -269,9 +305,27 @@ def make_drivers(tier):
       drv.append(d)
   # ---- cl_queues.py
   class CLHarness(Component):
-    def construct(s, QT, n):
+    def construct(s, QT, n, peek=False):
       s.dut = QT(num_entries=n)
-      s.want_enq = 0; s.want_deq = 0; s.msg = 0; s.log = []
+      s.want_enq = 0; s.want_deq = 0; s.want_peek = 0; s.msg = 0; s.log = []
+      if peek:
+        @update_once
+        def producer():
+          r = bool(s.dut.enq.rdy()); f = False
+          if s.want_enq and r:
+            s.dut.enq(s.msg); f = True
+          s.log.append(('enq', r, f))
+        @update_once
+        def consumer():
+          # read-only view first: peek.rdy() every cycle, peek() on some cycles; then the dequeue as usual
+          pr = bool(s.dut.peek.rdy()); pc = False; pv = 0
+          if pr and s.want_peek:
+            pv = int(s.dut.peek()); pc = True
+          r = bool(s.dut.deq.rdy()); f = False; m = 0
+          if s.want_deq and r:
+            m = int(s.dut.deq()); f = True
+          s.log.append(('deq', r, f, m, pr, pc, pv))
+        return
       @update_once
       def producer():
         r = bool(s.dut.enq.rdy()); f = False
@@ -287,7 +341,11 @@ def make_drivers(tier):
   for kind in ('Normal', 'Pipe', 'Bypass'):
     cls = getattr(C, f'{kind}QueueCL')
     for n in caps:
-      drv.append(CLDrv('cl', cls.__name__, kind, n, None, (lambda cls=cls, n=n: CLHarness(cls, n))))
+      # Pipe / Bypass: the consumer also peeks (their block order is fixed by the constraints anyway).  NormalQueueCL: peek's
+      # constraints force the consumer's block first, so it is run both without peek (scheduler's free choice) and with it.
+      drv.append(CLDrv('cl', cls.__name__, kind, n, None, (lambda cls=cls, n=n, pk=(kind != 'Normal'): CLHarness(cls, n, pk))))
+      if kind == 'Normal':
+        drv.append(CLDrv('cl+peek', cls.__name__, kind, n, None, (lambda cls=cls, n=n: CLHarness(cls, n, True))))
   # ---- cl_queues.py again, with a producer that keeps ONE message object and updates it in place every cycle
   # (Bits8 at odd capacities, a two-field bitstruct at even ones) and the chains through the interface adapters
   import c17_chains
@@ -319,13 +377,17 @@ def make_drivers(tier):
 
 # ---------------------------------------------------------------------------------------------- Coq terms
 def code(r):
+  pk = r.get('pk')
   f = (r['rst'] | r['we'] << 1 | r['wd'] << 2 | (r['er'] is not None) << 3 | (r['er'] or 0) << 4
        | (r['dr'] is not None) << 5 | (r['dr'] or 0) << 6 | r['ef'] << 7 | r['df'] << 8 | r['ein'] << 9 | r['din'] << 10
-       | (r['cnt'] is not None) << 11)
+       | (r['cnt'] is not None) << 11 | (r.get('head', 0) & 1) << 12)
   a, b, c, regs = r['ints']
+  if pk is not None:
+    f |= pk[1] << 13 | pk[0] << 14 | 1 << 15
+    regs = [pk[2]]
   nib = lambda v: v if 0 <= v < 15 else 15          # 15 = "out of range" (legal values are <= 5 at capacities 1..5)
-  x = f | r['msg'] << 12 | r['out'] << 20 | nib(r['cnt'] or 0) << 28 | nib(a) << 32 | nib(b) << 36 | nib(c) << 40 | len(regs) << 44
-  for j, v in enumerate(regs): x |= v << (48 + 8 * j)
+  x = f | r['msg'] << 16 | r['out'] << 24 | nib(r['cnt'] or 0) << 32 | nib(a) << 36 | nib(b) << 40 | nib(c) << 44 | len(regs) << 48
+  for j, v in enumerate(regs): x |= v << (52 + 8 * j)
   assert 0 <= r['msg'] < 256 and 0 <= r['out'] < 256 and len(regs) < 16 and all(0 <= v < 256 for v in regs)
   return hex(x)
 
@@ -571,14 +633,14 @@ def run(ctx):
     if at is None: small, at = hist, len(hist) - 1
     term = f'({d.mid if d.mid is not None else 0}, {d.kind}, {d.n}, [' + ';'.join(code(r) for r in small) + '])'
     conf = ctx.coq_eval('conf', IMPORTS, '', [f'case_diagnosis {term}'])
-    m = re.match(r'\(\s*Some (\d+)', conf[0])
-    if not m:
+    m = first_some(conf[0])
+    if m is None:
       ctx.note(f'{label}:{k}: the shrunk history is not rejected by the Coq specification replay ({conf[0]}); reporting the original history')
       small, at = hist, len(hist) - 1
       term = cases[i]
       conf = ctx.coq_eval('conf', IMPORTS, '', [f'case_diagnosis {term}'])
-      m = re.match(r'\(\s*Some (\d+)', conf[0])
-    cq = int(m.group(1)) if m else at
+      m = first_some(conf[0])
+    cq = m if m is not None else at
     offers = [(x['rst'], x['we'], x['msg'], x['wd']) for x in small]
     if d.chain:
       acc = [x['msg'] for x in small if x['ef']]; dlv = [x['out'] for x in small if x['df']]
@@ -596,7 +658,7 @@ def run(ctx):
     key = f'C17:{d.label}:history' + ('' if k == 'enq-rdy-low' else f':{k}')
     ctx.violation(key,
                   f'{d.label} [{k}] leaves the FIFO specification in cycle {cq} of: (rst,want_enq,msg,want_deq) = {offers}; observed there enq_rdy={r["er"]} '
-                  f'deq_rdy/val={r["dr"]} enq_fire={r["ef"]} deq_fire={r["df"]} msg={r["out"]} count={r["cnt"]}; the Coq spec expects '
+                  f'deq_rdy/val={r["dr"]} enq_fire={r["ef"]} deq_fire={r["df"]} msg/data={r["out"]} count={r["cnt"]} peek(rdy,called,value,after_enq)={r.get("pk")}; the Coq spec expects '
                   f'(enq_rdy,deq_rdy,enq_fire,deq_fire,msg,count,queue) = {exp}',
                   {'queue': d.label, 'kind': d.kind, 'capacity': d.n, 'deviation': k, 'plan': tag, 'offers(rst,want_enq,msg,want_deq)': offers,
                    'observed': small, 'coq_first_bad_cycle(spec, any)': conf[0], 'coq_spec_expects_at_that_cycle': exp, 'coq_case': term,
@@ -616,7 +678,7 @@ def main(ctx):
     'enrdy_queues.py NormalQueue1RTL/PipeQueue1RTL and valrdy_queues.py 1-entry queues keep `full` in a register without reset and the CL queues never clear their deque: they are exercised without mid-run resets (the property text does not speak about reset)',
     'valrdy_queues.py is loaded with InValRdyIfc/OutValRdyIfc bound to the stream val/rdy interfaces because pymtl3.stdlib.ifcs does not define them in this tree',
     'chains: the same-cycle ready rules are judged per library queue only (directly driven, and monitored passively inside chains); end to end through adapters/StallCL only the accepted/delivered streams and a bound on outstanding messages are judged; GetRTL2GiveCL cannot be instantiated in this tree (reads s.get.msg, GetIfcRTL has .ret) so no chain goes through it; chains are run without mid-run resets',
-    'CL queues: peek() is not driven; NormalQueueCL is checked for the block order the scheduler actually chose (the theorem covers both orders)',
+    'CL queues: peek is called from the consumer block (start of the block); NormalQueueCL is checked for the block order the scheduler actually chose (the theorem covers both orders); push-style enrdy queues expose no data output outside a transfer, so no peek-like view is judged there',
     'message payload: Bits8, 1 symbol bit + counter; entry types other than Bits8 are not exercised']
   import stdlib_gen
   # T-gen: the real component's update blocks are translated on every run (translators/stdlib2coq.py) and proved equal to
